@@ -28,13 +28,16 @@ package channeldb
 
 import (
 	"bytes"
+	"encoding/hex"
 
+	"github.com/btcsuite/btcd/btcec/v2"
 	"github.com/btcsuite/btcd/btcutil/v2"
 	"github.com/btcsuite/btcd/wire/v2"
 	"github.com/lightningnetwork/lnd/fn/v2"
 	"github.com/lightningnetwork/lnd/graph/db/models"
 	"github.com/lightningnetwork/lnd/kvdb"
 	"github.com/lightningnetwork/lnd/lnwire"
+	"github.com/lightningnetwork/lnd/shachain"
 	"github.com/lightningnetwork/lnd/tlv"
 )
 
@@ -45,7 +48,19 @@ var c02DeepCommit, c02DeepHtlc, c02DeepUpd bool
 // c02AllPairs: every ordered pair of update kinds (instead of kind, kind+1).
 var c02AllPairs bool
 
+// c02Pins: shape choices pinned by an entry (to tie shapes together instead
+// of exploring their product); c02Choice is vChoice unless pinned.
+var c02Pins map[string]int
+
+func c02Choice(name string, n int) int {
+	if v, ok := c02Pins[name]; ok {
+		return v
+	}
+	return vChoice(name, n)
+}
+
 func c02Mode(commit, htlc, upd bool) {
+	c02Pins = nil
 	c02DeepCommit, c02DeepHtlc, c02DeepUpd, c02AllPairs = commit, htlc, upd, false
 }
 
@@ -208,7 +223,7 @@ func c02Htlc(sigLen, nRec int) HTLC {
 func c02Htlcs(max int) []HTLC {
 	n := max
 	if max >= 0 {
-		n = vChoice("nHtlcs", max+1)
+		n = c02Choice("nHtlcs", max+1)
 	} else {
 		n = -max - 1 // pinned by the caller (tied to another shape choice)
 	}
@@ -259,7 +274,7 @@ const c02Tied = -100
 func c02Commit(maxHtlcs int) *ChannelCommitment {
 	// shapes: quick = {1 output, no signature, no blob} and {2 outputs,
 	// 4-byte signature, 4-byte custom blob}; thorough = all 8 combinations.
-	shape := vChoice("commitShape", 2)
+	shape := c02Choice("commitShape", 2)
 	nOut, sigLen, blob := 1+shape, 4*shape, shape == 1
 	if c02DeepCommit {
 		nOut, sigLen, blob = 1+vChoice("nTxOut", 2), 4*vChoice("commitSigShape", 2), vChoice("customBlob", 2) == 1
@@ -460,12 +475,12 @@ func c02MsgEq(got, want lnwire.Message) bool {
 // c02Updates: k <= max log updates, kinds by case split. Quick: the first
 // update carries one custom record when its kind allows it; thorough: 0..2.
 func c02Updates(max int) []LogUpdate {
-	k := vChoice("nUpdates", max+1)
+	k := c02Choice("nUpdates", max+1)
 	var us []LogUpdate
 	kind := 0
 	for i := 0; i < k; i++ {
 		if i == 0 || c02DeepUpd || c02AllPairs {
-			kind = vChoice("updKind", c02NumKinds)
+			kind = c02Choice("updKind", c02NumKinds)
 		} else {
 			// quick: the second update is of the next kind, so that every
 			// kind occurs in both positions (updates are coded one after
@@ -627,3 +642,87 @@ func c02CommitDiff(maxHtlcs, maxUpd int) {
 
 func VerifC02CommitDiff()     { c02Mode(false, false, false); c02CommitDiff(c02Tied, 2) }
 func VerifC02CommitDiffDeep() { c02Mode(false, false, true); c02CommitDiff(2, 2) }
+
+// ---------------------------------------------------------------------------
+// revocation state
+// ---------------------------------------------------------------------------
+
+// c02CurvePoint: two fixed points of secp256k1 (the generator G and 2G) given
+// by their affine coordinates. Keys are concrete: a compressed point can only
+// be decoded by a modular square root (btcec.ParsePubKey), which is run on
+// concrete values.
+func c02CurvePoint(i int) *btcec.PublicKey {
+	xs := [2]string{
+		"79be667ef9dcbbac55a06295ce870b07029bfcdb2dce28d959f2815b16f81798",
+		"c6047f9441ed7d6d3045406e95c07cd85c778e4b8cef3ca7abac09b95c709ee5",
+	}
+	ys := [2]string{
+		"483ada7726a3c4655da4fbfc0e1108a8fd17b448a68554199c47d08ffb10d4b8",
+		"1ae168fea63dc339a3c58419466ceaeef7f632653266d0e1236431a950cfe52a",
+	}
+	xb, _ := hex.DecodeString(xs[i])
+	yb, _ := hex.DecodeString(ys[i])
+	var x, y btcec.FieldVal
+	x.SetByteSlice(xb)
+	y.SetByteSlice(yb)
+	return btcec.NewPublicKey(&x, &y)
+}
+
+// c02RevocationState: what putChanRevocationState writes under
+// revocationStateKey is what fetchChanRevocationState reads back: the peer's
+// current point, our producer root, the peer's secret store (every bucket) and
+// the optional next point. Producer root and store contents are symbolic; the
+// store is built from its own byte form (its fields are private to shachain).
+func c02RevocationState(maxBuckets int) {
+	n := vChoice("nBuckets", maxBuckets+1)
+	raw := []byte{byte(n)}
+	for i := 0; i < n; i++ {
+		raw = append(raw, vBytes("bucketIndex", 8)...)
+		raw = append(raw, vBytes("bucketHash", 32)...)
+	}
+	raw = append(raw, vBytes("storeIndex", 8)...)
+	store, err := shachain.NewRevocationStoreFromBytes(bytes.NewReader(raw))
+	vAssert(err == nil && store != nil, "revstate: the store is built")
+	root := vBytes("producerRoot", 32)
+	prod, err := shachain.NewRevocationProducerFromBytes(root)
+	vAssert(err == nil && prod != nil, "revstate: the producer is built")
+	hasNext := vChoice("hasNext", 2) == 1
+	ch := &OpenChannel{
+		RemoteCurrentRevocation: c02CurvePoint(0),
+		RevocationProducer:      prod,
+		RevocationStore:         store,
+	}
+	if hasNext {
+		ch.RemoteNextRevocation = c02CurvePoint(1)
+	}
+	bkt := &c02Bucket{}
+	err = putChanRevocationState(bkt, ch)
+	vAssert(err == nil, "revstate: putChanRevocationState succeeds")
+	var got OpenChannel
+	err = fetchChanRevocationState(bkt, &got)
+	vAssert(err == nil, "revstate: fetchChanRevocationState of what was written succeeds")
+	if err != nil {
+		return
+	}
+	vAssert(got.RemoteCurrentRevocation != nil && got.RemoteCurrentRevocation.IsEqual(c02CurvePoint(0)), "revstate: RemoteCurrentRevocation")
+	vAssert((got.RemoteNextRevocation != nil) == hasNext, "revstate: RemoteNextRevocation presence")
+	if hasNext && got.RemoteNextRevocation != nil {
+		vAssert(got.RemoteNextRevocation.IsEqual(c02CurvePoint(1)), "revstate: RemoteNextRevocation")
+	}
+	vAssert(got.RevocationProducer != nil && got.RevocationStore != nil, "revstate: producer and store present")
+	if got.RevocationProducer == nil || got.RevocationStore == nil {
+		return
+	}
+	var pb, sb bytes.Buffer
+	vAssert(got.RevocationProducer.Encode(&pb) == nil && bytes.Equal(pb.Bytes(), root), "revstate: producer root")
+	vAssert(got.RevocationStore.Encode(&sb) == nil && bytes.Equal(sb.Bytes(), raw), "revstate: every bucket and the index of the secret store")
+	if hasNext && n == maxBuckets {
+		vReach("revstate-next-point")
+	}
+	if !hasNext && n == 0 {
+		vReach("revstate-fresh")
+	}
+}
+
+func VerifC02RevocationState()     { c02RevocationState(2) }
+func VerifC02RevocationStateDeep() { c02RevocationState(49) }
